@@ -37,6 +37,8 @@ func init() {
 			{ID: "C13.15", Desc: "each stale-if-error directive opens its own window (no sum over the stored response's and the request's)", Run: func(c *Ctx) { ruleSIEWindowPerDirective(c, "C13.15") }, MinSites: 1},
 			{ID: "C13.16", Desc: "behind a positive stale-if-error decision only the stored response is returned", Run: func(c *Ctx) { ruleSIEBranchReturnsStored(c, "C13.16") }, MinSites: 1},
 			{ID: "C13.17", Desc: "a response with a lifetime of zero has a stale-if-error window like any other", Run: func(c *Ctx) { ruleSIEComparisonsInvolveWindow(c, "C13.17") }, MinSites: 1},
+			{ID: "C13.18", Desc: "a 304 freshens the stored Cache-Control with every field line (must-revalidate / stale-if-error on a second line)", Run: func(c *Ctx) { ruleMergeFilter(c, "C13.18") }, MinSites: 1},
+			{ID: "C13.19", Desc: "the Date supplied by the cache is UTC (the window is not shifted by the zone offset)", Run: func(c *Ctx) { ruleDateRepair(c, "C13.19") }, MinSites: 1},
 		},
 	})
 }
